@@ -80,6 +80,6 @@ Qed.
 
 (* with --skip-parser-plugins no parser module matters: two environments that differ only in their parser modules decode alike *)
 Theorem disabled_ignores_modules e1 e2 consider data :
-  (forall a b, comp_name e1 a b = comp_name e2 a b) ->
+  registry e1 = registry e2 -> (forall a b, comp_name e1 a b = comp_name e2 a b) ->
   decode e1 {| allow_plugins := false |} consider data = decode e2 {| allow_plugins := false |} consider data.
-Proof. intros H. apply decode_equiv. split; [exact H|]. cbn. discriminate. Qed.
+Proof. intros Hr H. apply decode_equiv. split; [exact Hr|]. split; [exact H|]. cbn. discriminate. Qed.
